@@ -19,13 +19,13 @@ import (
 
 // VerifCoordCall describes one call made by the library on the (mock) coordinator connection.
 type VerifCoordCall struct {
-	Conn   int    // connection id handed out by connect (1, 2, ...); the id being created for "connect"
+	Conn    int    // connection id handed out by connect (1, 2, ...); the id being created for "connect"
 	Outcome string // Method "outcome": what the library's real Conn call returned (nil | k<code> | other) for call Of
 	Of      string
 	Body    []byte // Method "wirebody": the response body written for call Of, with Desc = what was encoded (in order)
 	Desc    string
-	Dead   bool   // byte-level path: the connection was dropped earlier, the call cannot reach the coordinator (answer is ignored)
-	Method string // connect close findCoordinator joinGroup syncGroup leaveGroup heartbeat offsetFetch offsetCommit readPartitions
+	Dead    bool   // byte-level path: the connection was dropped earlier, the call cannot reach the coordinator (answer is ignored)
+	Method  string // connect close findCoordinator joinGroup syncGroup leaveGroup heartbeat offsetFetch offsetCommit readPartitions
 
 	Addrs        []string // connect
 	GroupID      string
@@ -58,9 +58,10 @@ type VerifGroupMember struct {
 
 // VerifCoordReply is the scripted answer.
 type VerifCoordReply struct {
-	Err       error // returned as the call's error (what Conn does for non-zero error codes and network failures)
-	ErrorCode int16 // placed into the response's own ErrorCode field (findCoordinator, joinGroup, syncGroup)
-	ErrLast   bool  // byte-level path: put a per-partition error code on the last partition only
+	Err       error   // returned as the call's error (what Conn does for non-zero error codes and network failures)
+	ErrorCode int16   // placed into the response's own ErrorCode field (findCoordinator, joinGroup, syncGroup)
+	ErrLast   bool    // byte-level path: put a per-partition error code on the last partition only
+	Codes     []int16 // byte-level path: explicit per-partition error codes (OffsetCommit / OffsetFetch), in entry order
 
 	Host string // findCoordinator
 	Port int32
